@@ -7,7 +7,8 @@ it makes (`Paho.Gen.FnKeepalive`, regenerated on every run); executing that sequ
 (which `c08_time_inv` proves of every reachable state).
 -/
 import Paho.Gen.FnKeepalive
-import PahoProofs.Lemmas.Timer4
+import PahoProofs.Lemmas.Timer5
+import PahoProofs.Lemmas.OutFrame
 
 namespace Paho.FnEq
 open Paho Paho.Py Paho.Gen.Fn
@@ -32,6 +33,7 @@ def runEff (s : S) : MEff → S
     let (s', rc) := s.sendSimple 0xC0
     if rc = rcSuccess then { s' with pingT := s'.now } else s'
   | .call "_sock_close" [] => s.sockClose
+  | .call "_check_keepalive" [] => s.checkKeepalive
   | .call "_do_on_disconnect" [fromBroker, rc] => s.doOnDisconnect rc (fromBroker != 0)
   | .setInt "_state" v =>
     if v = c__ConnectionState_MQTT_CS_DISCONNECTED then { s with cstate := .disconnected }
@@ -114,5 +116,116 @@ theorem fn_checkKeepalive (s : S) (ho : s.lastOut ≤ s.now) (hi : s.lastIn ≤ 
               cases hcs : s.cstate <;> simp_all
             simp [hp, this, runEffs, runEff, rcKeepalive, c__ConnectionState_MQTT_CS_CONNECTION_LOST,
               c__ConnectionState_MQTT_CS_DISCONNECTED]
+
+/-! ### `Client.loop_misc` -/
+
+/-- a socket as an object reference: 0 = None -/
+def sockId : Option Nat → Int
+  | none => 0
+  | some c => (c : Int) + 1
+
+/-- the tail of both give-up branches (`_check_keepalive` and `loop_misc`): close, state by whether disconnect() had been
+called, one on_disconnect - executed on the model it is `kaClose` -/
+theorem run_close (t : S) :
+    (t.cstate = .disconnecting ∨ t.cstate = .disconnected →
+      runEffs t [.call "_sock_close" [], .setInt "_state" c__ConnectionState_MQTT_CS_DISCONNECTED,
+        .call "_do_on_disconnect" [0, 0]] = TimerLemmas.kaClose t) ∧
+    (¬ (t.cstate = .disconnecting ∨ t.cstate = .disconnected) →
+      runEffs t [.call "_sock_close" [], .setInt "_state" c__ConnectionState_MQTT_CS_CONNECTION_LOST,
+        .call "_do_on_disconnect" [0, 16]] = TimerLemmas.kaClose t) := by
+  have hcst : (t.sockClose).cstate = t.cstate := (TimerLemmas.sockClose_proj t false).2.2.2.2.2
+  constructor
+  · intro hd
+    have : (t.sockClose).disconnectingOrDone = true := by
+      unfold S.disconnectingOrDone; rw [hcst]; rcases hd with hd | hd <;> simp [hd]
+    simp [TimerLemmas.kaClose, this, runEffs, runEff, rcSuccess]
+  · intro hd
+    have : (t.sockClose).disconnectingOrDone = false := by
+      unfold S.disconnectingOrDone; rw [hcst]
+      cases hcs : t.cstate <;> simp_all
+    simp [TimerLemmas.kaClose, this, runEffs, runEff, rcKeepalive, c__ConnectionState_MQTT_CS_CONNECTION_LOST,
+      c__ConnectionState_MQTT_CS_DISCONNECTED]
+
+/-- the arguments of the translated `loop_misc` read off a model state; the attributes it reads again after the call of
+`_check_keepalive()` are those of the model's state after `checkKeepalive` -/
+def lmRun (s : S) : Except Exc (Int × List MEff) :=
+  let s1 := s.checkKeepalive
+  Gen.Fn.loopMisc (sockId s.sock) ((s.cfg.keepalive * 1000 : Nat) : Int) (csCode s.cstate) (s.pingT : Int) (s.now : Int)
+    (sockId s1.sock) (s1.pingT : Int) ((s1.cfg.keepalive * 1000 : Nat) : Int) (csCode s1.cstate)
+
+/-- **`Client.loop_misc` as the source has it now = the model's `loopMisc`** (result code and effect on the client), for every
+state whose timers are not ahead of the clock: MQTT_ERR_NO_CONN without a socket; MQTT_ERR_CONN_LOST when `_check_keepalive()`
+closed the connection (the socket is no longer the one the call started with - F39); when a PINGREQ has been outstanding for
+K: close, state by whether disconnect() had been called, one on_disconnect with success / MQTT_ERR_KEEPALIVE, result
+MQTT_ERR_CONN_LOST; otherwise MQTT_ERR_SUCCESS -/
+theorem fn_loopMisc (s : S) (hinv : TimerLemmas.TInv s) :
+    ∃ rc effs, lmRun s = .ok (rc, effs) ∧ (runEffs s effs, rc) = s.loopMisc := by
+  have hfr := TimerLemmas.checkKeepalive_frame s
+  have hinv1 := hinv.ck hfr
+  have hlow := (OutLemmas.checkKeepalive_low s).sock
+  obtain ⟨hnow, hcfg, _⟩ := hfr
+  unfold lmRun Gen.Fn.loopMisc
+  rcases TimerLemmas.loopMisc_cases s with ⟨h1, h2⟩ | ⟨h1, h2, h3⟩ | ⟨h1, h2, h3, h4⟩ | ⟨h1, h2, h3, h4⟩
+  · refine ⟨4, [], ?_, ?_⟩
+    · simp [h1, sockId, pure, Except.pure, bind, Except.bind]
+    · rw [h2]; simp [runEffs, rcNoConn]
+  · obtain ⟨c, hc⟩ := Option.isSome_iff_exists.mp h1
+    refine ⟨7, [.call "_check_keepalive" []], ?_, ?_⟩
+    · have : ((c : Int) + 1 == 0) = false := by rw [beq_eq_false_iff_ne]; omega
+      have h' : ((0 : Int) != (c : Int) + 1) = true := by simp; omega
+      simp [hc, h2, sockId, this, h', pure, Except.pure, bind, Except.bind]
+    · rw [h3]; simp [runEffs, runEff, rcConnLost]
+  · obtain ⟨c, hc⟩ := Option.isSome_iff_exists.mp h1
+    have hsame : s.checkKeepalive.sock = s.sock := by
+      rcases hlow with h | h
+      · exact h
+      · rw [h] at h2; simp at h2
+    have e0 : ((c : Int) + 1 == 0) = false := by rw [beq_eq_false_iff_ne]; omega
+    obtain ⟨hp1, hp2⟩ := h3
+    have hexp : (decide ((s.checkKeepalive.pingT : Int) > 0) &&
+        decide ((s.now : Int) - (s.checkKeepalive.pingT : Int) ≥ ((s.checkKeepalive.cfg.keepalive * 1000 : Nat) : Int))) = true := by
+      have := hinv1.2.2.1
+      simp only [Bool.and_eq_true, decide_eq_true_eq]
+      rw [hnow] at hp2 this
+      constructor <;> omega
+    have hrun := run_close s.checkKeepalive
+    by_cases hd : s.checkKeepalive.cstate = .disconnecting ∨ s.checkKeepalive.cstate = .disconnected
+    · refine ⟨7, [.call "_check_keepalive" [], .call "_sock_close" [], .setInt "_state" c__ConnectionState_MQTT_CS_DISCONNECTED,
+        .call "_do_on_disconnect" [0, 0]], ?_, ?_⟩
+      · simp only [hc, hsame, sockId, hexp]
+        rcases hd with hd | hd <;>
+          simp [e0, hd, csCode, pure, Except.pure, bind, Except.bind,
+            c__ConnectionState_MQTT_CS_DISCONNECTING, c__ConnectionState_MQTT_CS_DISCONNECTED]
+      · rw [h4, ← hrun.1 hd]; simp [runEffs, runEff, rcConnLost]
+    · refine ⟨7, [.call "_check_keepalive" [], .call "_sock_close" [], .setInt "_state" c__ConnectionState_MQTT_CS_CONNECTION_LOST,
+        .call "_do_on_disconnect" [0, 16]], ?_, ?_⟩
+      · have : ((csCode s.checkKeepalive.cstate == c__ConnectionState_MQTT_CS_DISCONNECTING) ||
+            (csCode s.checkKeepalive.cstate == c__ConnectionState_MQTT_CS_DISCONNECTED)) = false := by
+          cases hcs : s.checkKeepalive.cstate <;> simp_all [csCode, c__ConnectionState_MQTT_CS_CONNECTED,
+            c__ConnectionState_MQTT_CS_CONNECTION_LOST, c__ConnectionState_MQTT_CS_DISCONNECTING,
+            c__ConnectionState_MQTT_CS_DISCONNECTED]
+        simp only [hc, hsame, sockId, hexp, this]
+        simp [e0, pure, Except.pure, bind, Except.bind]
+      · rw [h4, ← hrun.2 hd]; simp [runEffs, runEff, rcConnLost]
+  · obtain ⟨c, hc⟩ := Option.isSome_iff_exists.mp h1
+    have hsame : s.checkKeepalive.sock = s.sock := by
+      rcases hlow with h | h
+      · exact h
+      · rw [h] at h2; simp at h2
+    have e0 : ((c : Int) + 1 == 0) = false := by rw [beq_eq_false_iff_ne]; omega
+    have hexp : (decide ((s.checkKeepalive.pingT : Int) > 0) &&
+        decide ((s.now : Int) - (s.checkKeepalive.pingT : Int) ≥ ((s.checkKeepalive.cfg.keepalive * 1000 : Nat) : Int))) = false := by
+      have := hinv1.2.2.1
+      rw [hnow] at this
+      rw [Bool.and_eq_false_iff]
+      unfold TimerLemmas.pingExpired at h3
+      rw [hnow] at h3
+      by_cases hp : s.checkKeepalive.pingT > 0
+      · right; simp only [decide_eq_false_iff_not]; intro hge; apply h3; constructor <;> omega
+      · left; simp only [decide_eq_false_iff_not]; omega
+    refine ⟨0, [.call "_check_keepalive" []], ?_, ?_⟩
+    · simp only [hc, hsame, sockId, hexp]
+      simp [e0, pure, Except.pure, bind, Except.bind]
+    · rw [h4]; simp [runEffs, runEff, rcSuccess]
 
 end Paho.FnEq
